@@ -220,6 +220,12 @@ class Aggregate:
         self.enum_digests = {}
 
     def add(self, task, reply):
+        now = time.monotonic()
+        if now - getattr(self, "_last_print", 0) > 120:
+            if hasattr(self, "_last_print"):
+                print(f"[yadsim] progress: {self.evaluations} evaluations, {len(self.violations)} violating, "
+                      f"{len(self.inconclusive)} inconclusive", flush=True)
+            self._last_print = now
         if "error" in reply:
             if reply["error"] in ("watchdog", "worker-died"):
                 self.inconclusive.append((task.get("index"), reply["error"]))
